@@ -253,6 +253,8 @@ def run(ck, tier):
     _mp.run(ck, F, 'C12')
     from . import accum as _acc2
     _acc2.run2(ck, F, 'C12')
+    from . import relations as _rel
+    _rel.run(ck, F, 'C12')
     from . import c12x
     c12x.run(ck, F)
     run_native(ck, F)
